@@ -75,6 +75,60 @@ type Store struct {
 	MaxInFlight *int64
 	OrderHash   *uint64
 	Tag         uint64
+
+	// Arena: hand keys and values out as slices of buffers the store keeps (the same backing
+	// array for every caller, spare capacity behind the data filled with a canary), the way an
+	// in-memory engine may return its own memory. A library that appends to or writes into what
+	// it was handed damages them: ArenaDamage reports it (and the race detector sees the writes).
+	Arena bool
+	arena map[string]*arenaBuf
+}
+
+type arenaBuf struct {
+	want string
+	buf  []byte
+}
+
+const arenaSpare = 24
+const arenaCanary = 0xA5
+
+// hand returns the arena slice for a string (caller holds s.mu).
+func (s *Store) hand(kind byte, str string) []byte {
+	if !s.Arena {
+		return []byte(str)
+	}
+	if s.arena == nil {
+		s.arena = map[string]*arenaBuf{}
+	}
+	id := string(kind) + str
+	a, ok := s.arena[id]
+	if !ok {
+		a = &arenaBuf{want: str, buf: make([]byte, len(str)+arenaSpare)}
+		copy(a.buf, str)
+		for i := len(str); i < len(a.buf); i++ {
+			a.buf[i] = arenaCanary
+		}
+		s.arena[id] = a
+	}
+	return a.buf[:len(str)]
+}
+
+// ArenaDamage lists the handed-out buffers whose data or canary bytes were modified.
+func (s *Store) ArenaDamage() []string {
+	s.mu.Lock()
+	defer s.mu.Unlock()
+	var out []string
+	for _, a := range s.arena {
+		bad := string(a.buf[:len(a.want)]) != a.want
+		for i := len(a.want); i < len(a.buf) && !bad; i++ {
+			bad = a.buf[i] != arenaCanary
+		}
+		if bad {
+			out = append(out, fmt.Sprintf("%q is now %q", a.want, string(a.buf)))
+		}
+	}
+	sort.Strings(out)
+	return out
 }
 
 func New(pairs []Pair) *Store {
@@ -253,6 +307,9 @@ func (s *Store) getCore(key []byte) ([]byte, error) {
 		return nil, nil
 	}
 	s.rec(Event{Op: OpGet, Key: string(key), Res: "hit"})
+	if s.Arena {
+		return s.hand('v', v), nil
+	}
 	out := make([]byte, len(v))
 	copy(out, v)
 	return out, nil
@@ -463,7 +520,7 @@ func (c *cursor) Next() ([]byte, []byte, error) {
 	k, v := c.keys[c.pos], c.vals[c.pos]
 	c.pos++
 	s.rec(Event{Op: OpNext, Cur: c.id, Key: k, Res: "hit"})
-	return []byte(k), []byte(v), nil
+	return s.hand('k', k), s.hand('v', v), nil
 }
 
 // FormatLog renders an event log compactly for replay output.
